@@ -6,21 +6,21 @@ import common as C
 ID = "C12"
 COQ_TARGETS = ["Exec/Stroke.vo", "Properties/C12.vo"]
 THEOREMS = ["C12_adaptive_spec", "C12_poses_key_order", "C12_probe_waypoints", "C12_no_interp_unless_requested", "C12_plan_success_iff",
-            "C12_plan_is_a_probe", "C12_inter_on_segment", "C12_nsteps_fine", "C12_starts_at_strategy_refuted"]
+            "C12_plan_is_a_probe", "C12_inter_on_segment", "C12_nsteps_fine", "C12_starts_at_from"]
 LEVEL_TEXT = ("Coq theorems for every IK / RRT / interpolation oracle, recursion depth, cost limit and scheduling choice about a model of "
               "Cartesian::plan: the adaptive bisection emits a chain whose every transition costs at most max_transition_cost and whose "
               "way-points are answers of the collision-aware IK for poses on the segment; LAND, stroke and PARK poses are scheduled in order; "
               "every way-point of a successful plan is the landing solution, a collision-aware IK answer or an RRT node; interpolated way-points "
               "only when requested; success <=> some strategy succeeds, for every behaviour of find_map_any; densification is strictly inside "
-              "the segment and fine enough.  The clause 'the path leads from the given start configuration' is REFUTED for the model "
-              "(C12_starts_at_strategy_refuted) and recorded as a known finding")
+              "the segment and fine enough; the first way-point is the caller's start configuration (on-boarding leg; RRT contract: a path "
+              "begins with its start and ends with its goal, C13)")
 LEVEL_NOTE = ("hand-written model of cartesian.rs over R with oracles; tie: hooks expose with_intermediate_poses and "
               "step_adaptive_linear_transition; the harness records every continuation-IK call (pose, previous, collision-filtered answers) and "
               "the model's Q instance replays the bisection with vm_compute (answers keyed by the dyadic position on the segment), the pose "
               "schedule is recomputed from segment lengths/angles; end-to-end Cartesian::plan is exercised by an independent oracle (FK of every "
               "way-point, collision verdict, distance to the polyline, transition costs, flags, rayon pools 1/16)")
 TECHNIQUE = "Coq proof over R with oracle/choice parameters + vm_compute replay of recorded IK answers + end-to-end oracle"
-RULE = ("IRB2400 cells with free / far / grazing / blocking box obstacles, 2-4 stroke poses 3-10 cm apart, step sizes {1,2,5} cm, cost limits "
+RULE = ("IRB2400 cells with free / far / grazing / blocking box obstacles and a free cell whose stroke passes the wrist singularity 1 mm aside (RRT gap closing), 2-4 stroke poses 3-10 cm apart, step sizes {1,2,5} cm, cost limits "
         "{0.05,0.1,0.3}, recursion depths {0,2,6}, include-interpolation on/off, rayon pools {1,16}; non-trivial = bisection recursed at least "
         "once or the plan succeeded; distinct = distinct cells")
 EXPLANATION = LEVEL_NOTE
